@@ -79,7 +79,11 @@ Proof.
   rewrite H1. cbn [Z.eqb negb]. cbn. exact H1.
 Qed.
 
-Lemma dev_hold_keeps f x m : keeps_res f -> dev_hold (f x) m = dev_hold x m.
+Definition keeps_hold (f : dev -> dev) : Prop := forall x, d_reserved (f x) = d_reserved x /\ d_req (f x) = d_req x.
+Lemma keeps_res_hold f : keeps_res f -> keeps_hold f.
+Proof. intros K x. destruct (K x) as [A [B _]]. auto. Qed.
+
+Lemma dev_hold_keeps f x m : keeps_hold f -> dev_hold (f x) m = dev_hold x m.
 Proof. intro K. unfold dev_hold. destruct (K x) as [-> ->]. reflexivity. Qed.
 
 Lemma getd_aget w d x : aget d (f_devs w) = Some x -> getd w d = x.
@@ -89,7 +93,7 @@ Lemma amem_aget {V} d (l : list (Z * V)) : amem d l = true -> exists x, aget d l
 Proof. unfold amem. destruct (aget d l); [eauto|discriminate]. Qed.
 
 (** any device update that leaves the reservation fields alone preserves the invariant *)
-Lemma HoldW_updd w d f : keeps_res f -> HoldW w -> HoldW (updd w d f).
+Lemma HoldW_updd w d f : keeps_hold f -> HoldW w -> HoldW (updd w d f).
 Proof.
   intros KR HW. pose proof HW as [H1 H2 H3 H4 H5]. split.
     + exact H1.
@@ -114,11 +118,15 @@ Qed.
 Theorem wstep_HoldW n nw w w' : wstep n nw w w' -> HoldW w -> HoldW w'.
 Proof.
   intros S HW. pose proof HW as [H1 H2 H3 H4 H5]. destruct S.
-  - apply HoldW_updd; assumption.
+  - apply HoldW_updd; [apply keeps_res_hold; assumption|assumption].
   - apply (HoldW_same w); auto.
   - apply (HoldW_same w); unfold failf; destruct (f_err w =? 0); auto.
   - apply (HoldW_same w); auto.
   - apply (HoldW_same w); auto.
+  - (* a source generates its next part *)
+    apply HoldW_updd; [intro y; split; reflexivity|].
+    assert (GE : f_devs (fst (generate w d)) = f_devs w /\ f_rm (fst (generate w d)) = f_rm w) by (unfold generate; destruct (_ <=? 0); split; reflexivity).
+    destruct GE as [GD GR]. apply (HoldW_same w); auto; rewrite GR; auto.
   - apply (HoldW_same w); auto.
   - (* a quiet manager call *)
     rename H into Q. destruct (Q (RInv_clean _ H1)) as [I' [Rr U]].
